@@ -146,6 +146,50 @@ pub static VARIANTS: [&[&str]; 17] = [
     &["V0", "V1", "V2", "V3", "V4", "V5", "V6", "V7", "V8", "V9", "V10", "V11", "V12", "V13", "V14", "V15"],
 ];
 
+/// static name lists of any length (leaked once per length beyond the built-in tables)
+pub fn field_names(n: usize) -> &'static [&'static str] {
+    if n <= 16 {
+        return FIELDS[n];
+    }
+    big_names(n, false)
+}
+pub fn variant_names(n: usize) -> &'static [&'static str] {
+    if n <= 16 {
+        return VARIANTS[n];
+    }
+    big_names(n, true)
+}
+pub fn fname(i: usize) -> &'static str {
+    if i < 16 {
+        FNAMES[i]
+    } else {
+        big_names(i + 1, false)[i]
+    }
+}
+pub fn vname(i: usize) -> &'static str {
+    if i < 16 {
+        VNAMES[i]
+    } else {
+        big_names(i + 1, true)[i]
+    }
+}
+fn big_names(n: usize, variants: bool) -> &'static [&'static str] {
+    use std::collections::HashMap;
+    use std::sync::Mutex;
+    static CACHE: Mutex<Option<HashMap<(usize, bool), &'static [&'static str]>>> = Mutex::new(None);
+    let mut g = CACHE.lock().unwrap();
+    let m = g.get_or_insert_with(HashMap::new);
+    if let Some(v) = m.get(&(n, variants)) {
+        return v;
+    }
+    let v: Vec<&'static str> = (0..n)
+        .map(|i| if i < 16 { if variants { VNAMES[i] } else { FNAMES[i] } } else { &*Box::leak(format!("{}{}", if variants { "V" } else { "n" }, i).into_boxed_str()) })
+        .collect();
+    let leaked: &'static [&'static str] = Box::leak(v.into_boxed_slice());
+    m.insert((n, variants), leaked);
+    leaked
+}
+
 impl Shape {
     pub fn nodes(&self) -> usize {
         use Shape::*;
